@@ -18,9 +18,10 @@ func init() {
 		Run:   runC19,
 		Level: "fault_enumeration",
 		Rule: "a run = the C10 pool (real provider, http or connect gun, engine, 1-6 instances, 1-8 entries x 1-2 passes) against the byte-level scripted peer with a fault drawn per entry from the enumerated list {status 200-599/999, Connection: close, close or reset before the response / inside the headers / inside the body, garbage, bad chunking, bad HTTP version, negative Content-Length, silence until the client's timeout, 100-continue, HTTP/1.0 close-delimited body, huge body, huge headers, stall} " +
-			"and connection faults {refused connects, connects beyond the dial timeout}; oracle: Engine.Run returns nil, one sample per request, every entry of every pass was attempted (the instance went on with the next ammo), no panic reached the engine; non-trivial = at least one fault fired; distinct = distinct (fault kinds of the run) x schedule-trace hash",
+			"and connection faults {refused connects, connects beyond the dial timeout, partitions shorter and longer than the client timeouts, and for the connect gun a proxy that answers every third CONNECT with 502 / extra bytes after the 200 / nothing before closing / non-HTTP bytes / silence}; " +
+			"further modes: the http/scenario gun over plain HTTP/1.1, over TLS and as http2/scenario over HTTP/2 against arbitrary statuses, header values and bodies for its extractors and assertions; the grpc and grpc/scenario guns against every status code, slow handlers and resets; the http2 gun against HTTP/2, failing TLS handshakes and the documented fatal no-HTTP/2 target; oracle: Engine.Run returns nil, one sample per request, every entry of every pass was attempted (the instance went on with the next ammo), no panic reached the engine; non-trivial = at least one fault fired; distinct = distinct (fault kinds of the run) x schedule-trace hash",
 		Components: map[string]string{
-			"components/guns/http (BaseGun, http and connect guns)": "real", "components/providers/http": "real", "core/engine (instance recover path)": "real", "net/http client transport": "real (stdlib, un-yielded)",
+			"components/guns/http (BaseGun, http, http2 and connect guns)": "real", "components/guns/http_scenario (http/scenario, http2/scenario)": "real", "components/guns/grpc, grpc/scenario": "real", "components/providers/http": "real", "core/engine (instance recover path)": "real", "net/http client transport": "real (stdlib, un-yielded)",
 			"target": "byte-level scripted peer in the bubble", "network": "simulated (simnet)", "aggregator": "recording stub", "clock": "simulated",
 		},
 	})
@@ -127,17 +128,27 @@ func c19Scenario(r *R) {
 	for i := 0; i < invocations*5; i++ {
 		plan = append(plan, ans{status: []int{200, 200, 200, 204, 304, 404, 500, 201}[f.Draw(8)], hdr: c19HdrVals[f.Draw(len(c19HdrVals))], hasHdr: f.Draw(4) != 0, body: c19Bodies[f.Draw(len(c19Bodies))]})
 	}
-	r.Sample(map[string]any{"mode": "scenario", "instances": inst, "invocations": invocations, "description": yaml})
+	// the same scenario over plain HTTP/1.1, over TLS (ssl: true), or shot by the http2/scenario gun at an HTTP/2 target
+	transport := []string{"plain", "plain", "tls", "h2"}[w.Draw(4)]
+	r.Sample(map[string]any{"mode": "scenario", "instances": inst, "invocations": invocations, "description": yaml, "transport": transport})
 	r.NonTrivial()
+	r.Note("scenario-transport/" + transport)
 	target := "10.0.0.11:8080"
+	gun := map[string]interface{}{"type": "http/scenario", "target": target}
+	switch transport {
+	case "tls":
+		gun["ssl"] = true
+	case "h2":
+		gun["type"] = "http2/scenario"
+	}
 	var tgt *httpTarget
 	res := runHTTPPool(r, httpPoolSpec{
 		Ammo:      map[string]interface{}{"type": "http/scenario", "file": "/ammo/scenario.yaml", "limit": invocations},
-		Gun:       map[string]interface{}{"type": "http/scenario", "target": target},
+		Gun:       gun,
 		Instances: inst, Tokens: invocations + 2,
 		Files: map[string][]byte{"/ammo/scenario.yaml": []byte(yaml)},
 	}, nil, func(nw *simnet.Net) {
-		tgt = startHTTPTarget(nw, target, false, func(n int, s *seenReq) respScript {
+		tgt = startHTTPTargetTLS(nw, target, transport != "plain", tlsOpts{H2: transport == "h2"}, func(n int, s *seenReq) respScript {
 			a := plan[n%len(plan)]
 			rs := respScript{Status: a.status, Hdr: map[string]string{}}
 			if a.hasHdr {
@@ -149,6 +160,10 @@ func c19Scenario(r *R) {
 			return rs
 		})
 	})
+	if transport == "h2" {
+		runtime.GC() // (see c19HTTP2: pooled channels of x/net/http2 must not cross bubbles)
+		runtime.GC()
+	}
 	for _, a := range plan {
 		r.Note(fmt.Sprintf("scenario-answer/status-%d", a.status))
 	}
